@@ -663,6 +663,7 @@ def main(argv: list[str] | None = None) -> int:
     ap.add_argument("--one", type=int, help="run one seed verbosely")
     ap.add_argument("--quiet", action="store_true")
     ap.add_argument("--digests", type=int, help="(self-test) print 'seed digest' for the first N seeds of the batch and exit")
+    ap.add_argument("--reverse", action="store_true", help="(self-test) with --digests: run the seeds in reverse order (order independence)")
     ap.add_argument("--emit-known", action="store_true", help="(maintenance) rewrite the committed replay files of known findings")
     a = ap.parse_args(argv)
     if os.environ.get("PYTHONHASHSEED") != "0" and not os.environ.get("VERIF_KEEP_HASHSEED"):
@@ -674,7 +675,7 @@ def main(argv: list[str] | None = None) -> int:
     if a.replay:
         return replay_file(mod, a.replay, a.quiet)
     if a.digests:
-        for i in range(a.digests):
+        for i in (reversed(range(a.digests)) if a.reverse else range(a.digests)):
             sd = a.seed * 1_000_003 + i
             r = run_once(mod, seed=sd, params={"tier": a.tier})
             print(f"DIGEST {sd} {r['digest']} {r['error'] or ''}".rstrip())
